@@ -284,4 +284,86 @@ def rule_esc(ctx) -> RuleResult:
     return res
 
 
-RULES = [rule_pair, rule_rekey, rule_rec, rule_esc]
+def rule_defer(ctx) -> RuleResult:
+    res = RuleResult(
+        "C04.DEFER",
+        "C04",
+        "the concatenated attribute records are written back at close() only when workspace.repack is set: every function that "
+        "edits a record in place sets `workspace.repack = True` (or persists 'concatenated_attributes') afterwards on all normal "
+        "paths, and Workspace.close() persists the records of every Concatenator under that flag before the final save",
+        floor=4,
+    )
+    p = ctx.p
+    conc = p.cls("Concatenator")
+    targets = [conc.methods[n] for n in ("update_concatenated_attributes", "remove_entity") if n in conc.methods]
+    if len(targets) < 2:
+        raise AnalysisError("C04.DEFER: Concatenator.update_concatenated_attributes / remove_entity not found")
+    for fn in targets:
+        g = CFG(fn.node)
+        aliases = {unparse(a.targets[0]) for a in ast.walk(fn.node) if isinstance(a, ast.Assign) and "get_concatenated_attributes" in unparse(a.value)}
+
+        def edits(n, aliases=aliases):
+            if n.ast is None or isinstance(n.ast, list) or n.kind != "stmt":
+                return False
+            for x in ast.walk(n.ast):
+                if isinstance(x, ast.Subscript) and isinstance(x.ctx, (ast.Store, ast.Del)) and (unparse(x.value) in aliases or "concatenated_attributes" in unparse(x.value)):
+                    return True
+                if isinstance(x, ast.Call) and isinstance(x.func, ast.Attribute) and x.func.attr in ("remove", "append", "pop") and "concatenated_attributes" in unparse(x.func.value):
+                    return True
+            return False
+
+        def flags(n):
+            if n.ast is None or isinstance(n.ast, list):
+                return False
+            for x in ast.walk(n.ast):
+                if isinstance(x, ast.Assign) and unparse(x.targets[0]).endswith("workspace.repack") and unparse(x.value) == "True":
+                    return True
+                if isinstance(x, ast.Call) and isinstance(x.func, ast.Attribute) and x.func.attr == "update_attribute" and "concatenated_attributes" in unparse(x):
+                    return True
+            return False
+
+        e_nodes = [n for n in g.nodes if edits(n)]
+        # `self.concatenated_attributes is not None and self.attributes_keys is not None` holds whenever a record was edited
+        facts = {"truthy:self.concatenated_attributes": True, "truthy:self.attributes_keys": True,
+                 "notnone:self.concatenated_attributes": True, "notnone:self.attributes_keys": True}
+        bad = [n for n in e_nodes if g.exit in reach(g, [m for m, _ in n.succ], "self", facts, avoid=flags)]
+        ok = bool(e_nodes) and not bad
+        res.inst(f"{fn.qualname}: {len(e_nodes)} in-place edits of attribute records, each followed by workspace.repack = True", nontrivial=True, ok=ok)
+        if not e_nodes:
+            raise AnalysisError(f"{fn.qualname}: no in-place edit of the attribute records recognised")
+        if bad:
+            res.find("Concatenator", fn.name, "attribute record edited without setting workspace.repack", f"{fn.module.relpath}:{bad[0].lineno}",
+                     "the edited records are only written back by close() when workspace.repack is set: without the flag the change of a "
+                     "concatenated entity's attributes (or its removal) never reaches the file")
+    cl = p.func("Workspace.close")
+    loops = [lp for lp in ast.walk(cl.node) if isinstance(lp, ast.For) and "self.groups" in unparse(lp.iter)]
+    ok = False
+    for lp in loops:
+        body = unparse(ast.Module(body=lp.body, type_ignores=[]))
+        for i in [x for x in lp.body if isinstance(x, ast.If)]:
+            conj = {unparse(v) for v in (i.test.values if isinstance(i.test, ast.BoolOp) and isinstance(i.test.op, ast.And) else [i.test])}
+            tgt = unparse(lp.target)
+            inner = unparse(ast.Module(body=i.body, type_ignores=[]))
+            if conj == {f"isinstance({tgt}, Concatenator)", "self.repack"} and "update_attribute" in inner and "concatenated_attributes" in inner:
+                ok = True
+    res.inst("Workspace.close: for every Concatenator, if repack: update_attribute(entity, 'concatenated_attributes')", nontrivial=True, ok=ok)
+    if not ok:
+        res.find("Workspace", "close", "deferred write-back of concatenated attribute records missing", cl.where,
+                 "edits of concatenated entities' attributes are never written")
+    g = CFG(cl.node)
+    wb = [n for n in g.nodes if n.ast is not None and not isinstance(n.ast, list) and "concatenated_attributes" in unparse(n.ast) and "update_attribute" in unparse(n.ast)]
+    closes = [n for n in g.nodes if n.ast is not None and not isinstance(n.ast, list) and unparse(n.ast).startswith("self.geoh5.close(")]
+    ok = bool(wb) and all(not (set(reach(g, [c])) & set(wb)) for c in closes)
+    res.inst("Workspace.close: the write-back precedes File.close()", ok=ok)
+    if not ok:
+        res.find("Workspace", "close", "write-back after File.close()", cl.where, "the records are written to a closed handle")
+    # the repack setter is a plain store (setting the flag has no other precondition)
+    rp = p.cls("Workspace").props["repack"].setter
+    ok = any(isinstance(a, ast.Assign) and unparse(a.targets[0]) == "self._repack" and unparse(a.value) == rp.params[1] for a in ast.walk(rp.node))
+    res.inst("Workspace.repack setter stores the flag", ok=ok)
+    if not ok:
+        res.find("Workspace", "repack", "setter does not store the flag", rp.where, "the deferred write-back is never triggered")
+    return res
+
+
+RULES = [rule_pair, rule_rekey, rule_rec, rule_esc, rule_defer]
